@@ -100,6 +100,13 @@ SW = [
     ("ShapeIn 2.2.2 | dclab 0.62.7", (0, 62, 7)),
     (None, None),
 ]
+#: (feature, index into SW, needs a wide ROI) - combinations for which the
+#: documented rules call the stored feature defective
+DEFECT_COMBOS = [("aspect", 1, False), ("aspect", 2, False), ("volume", 3, False),
+                 ("volume", 5, False), ("time", 3, False), ("time", 4, False),
+                 ("inert_ratio_prnc", 6, True), ("tilt", 7, True),
+                 ("inert_ratio_raw", 5, True), ("inert_ratio_cvx", 3, True),
+                 ("inert_ratio_cvx", 7, True)]
 SPECIAL = [float("nan"), float("inf"), float("-inf"), -0.0, 5e-324, 1e300, -1e300]
 COMPS = ["none", "gzip", "lzf", "zstd1", "zstd5", "zstd9", "shuffle-gzip"]
 CHUNKS = ["1", "3", "10", "L-1", "L", "L+1", "2L", "100"]
@@ -208,6 +215,13 @@ def st_spec(draw):
             st.sampled_from(DEFECTABLE + ["frame"]), min_size=1, max_size=3))))
     nons = draw(st.lists(st.sampled_from(NONSC + ["mask", "contour", "image"]),
                          max_size=3, unique=True))
+    # ... and in a third of the cases one complete trigger combination
+    # (feature, software version[, wide ROI, frame + frame rate]) is forced
+    combo = draw(st.one_of(st.none(), st.none(), st.sampled_from(DEFECT_COMBOS)))
+    if combo is not None:
+        nsc = sorted(set(nsc) | {combo[0]} | ({"frame"} if combo[0] == "time" else set()))
+        if combo[2]:
+            nons = [x for x in nons if x not in ("image", "mask")]
     names = sorted(set(nsc)) + sorted(nons)
     if draw(st.integers(0, 4)) == 0:
         names.append("vf_unknown")
@@ -221,9 +235,11 @@ def st_spec(draw):
     task = draw(st.sampled_from(["compress", "repack", "condense", "condense"]))
     spec = {
         "n": n,
-        "sw": draw(st.integers(0, len(SW) - 1)),
-        "roi_x": draw(st.sampled_from([None, 250, 600, 600])),
-        "framerate": draw(st.sampled_from([2000.0, 2000.0, 0.0, None])),
+        "sw": draw(st.integers(0, len(SW) - 1)) if combo is None else combo[1],
+        "roi_x": draw(st.sampled_from([None, 250, 600, 600]))
+        if combo is None or not combo[2] else 600,
+        "framerate": draw(st.sampled_from([2000.0, 2000.0, 0.0, None]))
+        if combo is None else 2000.0,
         "hw": [draw(st.integers(5, 8)), draw(st.integers(6, 11))],
         "feats": feats,
         "logs": [draw(st_log(nm)) for nm in lognames],
@@ -648,7 +664,7 @@ def dec_lines(dset):
     out = []
     for x in dset[:] if dset.shape[0] else []:
         if isinstance(x, bytes):
-            x = x.decode("utf-8")
+            x = x.decode("utf-8", errors="replace")
         out.append(str(x))
     return out
 
@@ -662,6 +678,11 @@ def attr_eq(a, b):
     if a.shape != b.shape or a.dtype != b.dtype:
         return False
     return a.tobytes() == b.tobytes()
+
+
+def n_distinct(a):
+    a = np.asarray(a, dtype=np.float64)
+    return len(np.unique(a[np.isfinite(a)]))
 
 
 def zstd_level(dset):
@@ -867,7 +888,7 @@ def run_layout(spec, rec, d):
         return
     rec.check(pout.exists(), f"no-output/{task}", "task returned without output file")
     compare(rec, spec, info, pin, pout, task, opts, cls, pre="", first=True)
-    if spec["second"]:
+    if spec["second"] and cls != "zero-events":
         rec.cls("second-application")
         s1 = sha256(pout)
         pout2 = d / "out2.rtdc"
@@ -915,7 +936,19 @@ def compare(rec, spec, info, pin, pout, task, opts, cls, pre, first):
                 continue
             kind = feat_kind(nm)
             br = info["branch"].get(nm, "basinmap") if first else "task-output"
-            tag = f"{kind}/{br}" if cls != "zero-events" else "zero-events"
+            tag = f"{kind}/{br}"
+            if cls == "zero-events":
+                # reduced oracle for files without events: the (empty) feature
+                # must still exist in the output
+                if kind == "basinmap" and not keep_basins:
+                    continue
+                if nm in DEFECTABLE or (task == "condense"
+                                        and not dfn.scalar_feature_exists(nm)):
+                    continue
+                cmp.ck(nm in evo, "zero-events/feature-dropped",
+                       f"the empty feature {nm} of a file without events is "
+                       f"missing in the output")
+                continue
             if kind == "basinmap":
                 if keep_basins:
                     if cmp.ck(nm in evo, f"events/missing/{tag}",
@@ -943,6 +976,15 @@ def compare(rec, spec, info, pin, pout, task, opts, cls, pre, first):
                 if task != "condense":
                     cmp.ck(nm not in evo, f"events/defective-copied/{nm}",
                            f"defective feature {nm} was copied "
+                           f"(software version {SW[spec['sw']][0]!r})")
+                elif nm in evo and evi[nm].size and n_distinct(evi[nm][()]) > 1:
+                    # condense may store a re-computed (ancillary) version, but
+                    # not the stored random data of the input
+                    same = evo[nm].shape == evi[nm].shape and np.array_equal(
+                        evo[nm][()].astype(np.float64),
+                        evi[nm][()].astype(np.float64), equal_nan=True)
+                    cmp.ck(not same, f"events/defective-copied/{nm}",
+                           f"defective feature {nm} was copied verbatim by condense "
                            f"(software version {SW[spec['sw']][0]!r})")
                 continue
             if task == "condense" and not dfn.scalar_feature_exists(nm):
@@ -1119,14 +1161,15 @@ def compare(rec, spec, info, pin, pout, task, opts, cls, pre, first):
             ho.visititems(visit)
 
     # -------------------- through dclab
-    eb = True
+    if cls == "zero-events":
+        rec.skip("zero-events-view-comparison-not-run")
+        return
     with dclab.new_dataset(pin) as di, dclab.new_dataset(pout) as do:
         fi = [f for f in di.features_innate if f not in unspec]
         fo = [f for f in do.features_innate if f not in unspec]
         if task != "condense":
             exp = [f for f in fi if keep_basins or not f.startswith("basinmap")]
-            cmp.ck(sorted(exp) == sorted(fo),
-                   f"view/innate-set/{task if cls != 'zero-events' else cls}",
+            cmp.ck(sorted(exp) == sorted(fo), f"view/innate-set/{task}",
                    lambda: f"innate features {sorted(exp)} -> {sorted(fo)}")
             cmp.ck(len(di) == len(do), f"view/length/{task}",
                    lambda: f"len {len(di)} -> {len(do)}")
